@@ -282,6 +282,9 @@ func (c *callEngine) callWithStack(ctx context.Context, paramResultStack []uint6
 			for _, lsn := range listeners {
 				lsn.lsn.Abort(ctx, m, lsn.def, err)
 			}
+			// When the module was closed asynchronously during this call, releasing its resources was
+			// left to this call, whichever way it ends.
+			_ = c.parent.module.FailIfClosed()
 		} else {
 			if err != wasmruntime.ErrRuntimeStackOverflow { // Stackoverflow case shouldn't be panic (to avoid extreme stack unwinding).
 				err = c.parent.module.FailIfClosed()
